@@ -312,3 +312,33 @@ def run_numbers(name, m, sv, limit=120):
             if len(out) >= limit:
                 return out
     return out
+
+
+# ------------------------------------------------------------------------------------------ GS1 element strings
+
+def gs1_strings(limit=600):
+    """Element strings built from the registry of application identifiers (one witness per format class alone,
+    and a full-length variable value followed by two more variable values) with and without separators."""
+    try:
+        from .checks import c16
+    except Exception:
+        return []
+    tab = c16.table()
+    cl = c16.classes(tab)
+    out = []
+    firsts = []
+    for k in sorted(cl):
+        ai = cl[k][0]
+        ws = c16._wit(ai, k[0], k[1], True)
+        if not ws:
+            continue
+        out.append(ai + ws[0])
+        out.append('(%s)%s' % (ai, ws[-1]))
+        full = [w for w in ws if len(w) == c16.maxlen(k[0], k[1])]
+        if k[2] and full:
+            firsts.append(ai + full[0])
+    for f in firsts:
+        for sep in ('|', '[FNC1]', '\x1d'):
+            out.append(f + sep + '21S1' + sep + '22V')
+            out.append(f + sep + '400X' + sep + '401Y')
+    return list(dict.fromkeys(out))[:limit]
